@@ -26,6 +26,10 @@ Round 4: nothing of one class is stored in the namespace of the generated module
 same-named classes through sys.modules).
 
 Round 5: Prototype.__init__ paths that keep the class instead of a snapshot.
+
+Round 6: augmented assignment on a name that is the packet's own value; per-call closure cells
+of run-time functions are not shared state; helpers called only from _compile are declaration
+phase.
 """
 import ast
 
